@@ -66,6 +66,7 @@ struct WP {
   std::vector<int> vlist; Variables_Set vars;
   bool use_guard; std::vector<Constraint> guard; Sys guard_sys;
   unsigned thr; bool indiv;
+  WP() : w(8), sgn(false), ov(0), use_guard(false), thr(0), indiv(true) {}
 };
 static const char* const OVN[3] = { "wraps", "undefined", "impossible" };
 static Bounded_Integer_Type_Width width_of(int w) { return w == 8 ? BITS_8 : w == 16 ? BITS_16 : w == 32 ? BITS_32 : BITS_64; }
@@ -113,6 +114,7 @@ static Z dotz(const std::vector<Z>& a, const std::vector<Z>& z) { Z s = 0; for (
 // intdim[i]: integer candidates on that dimension.  small: coordinates near 0 (cip/drop), else near wrap boundaries.
 static Piece gen_piece(int n, const std::vector<bool>& intdim, Family fam, bool nnc, const WP* wp, bool small, int pct_unbounded, bool thin) {
   Piece P; P.win.resize(n);
+  bool straddle = wp && !small && coin(wp->indiv ? 15 : 45);
   std::vector<Z> zc(n);
   for (int i = 0; i < n; ++i) {
     DimWin& d = P.win[i]; d.intdim = intdim[i];
@@ -120,6 +122,7 @@ static Piece gen_piece(int n, const std::vector<bool>& intdim, Family fam, bool 
     if (intdim[i] && !small) {
       d.base = pick_center(*wp) + rnd(-4, 4); ext = rnd(0, 8);
       if (coin(12)) ext = rnd(1, 3) * wp->M + rnd(0, 5);           // several quadrants
+      else if (straddle) { ext = rnd(1, 8); d.base = wp->lo + rnd(-2, 3) * wp->M - rnd(1, (int) ext.get_si()); }   // astride a quadrant boundary
     } else { d.base = rnd(-6, 6); ext = rnd(0, small ? 4 : 3); }
     d.top = d.base + ext;
     d.lb = d.ub = true;
@@ -224,7 +227,7 @@ static void gen_grid(int n, const WP* wp, ArgSpec& A, GridArg& G) {
     int np = rnd(0, 2);
     for (int k = 0; k < np; ++k) {
       GGen q; q.kind = 'q'; q.den = den; q.num.assign(n, Z(0));
-      for (int i = 0; i < n; ++i) if (coin(60)) { Z m = pick_mod(wp); if (m == 0) m = 1; q.num[i] = m * (coin(80) ? den : Z(1)); for (int t = -2; t <= 2; ++t) G.centers[i].push_back(G.centers[i][0] + t * m); }
+      for (int i = 0; i < n; ++i) if (coin(60)) { Z m = pick_mod(wp); if (m == 0) m = 1; q.num[i] = m * (coin(60) ? den : Z(1)); for (int t = -2; t <= 2; ++t) G.centers[i].push_back(G.centers[i][0] + t * m); }
       A.gens.push_back(q);
     }
     if (coin(30)) { GGen l; l.kind = 'l'; l.den = 1; l.num.assign(n, Z(0)); int li = rnd(0, n - 1); l.num[li] = 1; if (n > 1 && coin(40)) l.num[(li + 1) % n] = rnd(-2, 2); A.gens.push_back(l); }
@@ -236,7 +239,7 @@ static void gen_grid(int n, const WP* wp, ArgSpec& A, GridArg& G) {
       int i = rnd(0, n - 1); int d = coin(80) ? 1 : rnd(2, 3); Z m = pick_mod(wp);
       Z ctr = wp ? pick_center(*wp) + rnd(-4, 4) : Z(rnd(-5, 5));
       Z r = ctr * d + (d > 1 ? rnd(0, d - 1) : 0);
-      A.cgs.push_back((d * Variable(i) %= Coefficient(r)) / Coefficient(Z(d * m)));
+      A.cgs.push_back((d * Variable(i) %= Coefficient(r)) / Coefficient(d > 1 && coin(40) ? m : Z(d * m)));   // period m or m/d (fractional)
       G.centers[i].push_back(ctr);
       if (m >= 8) for (int t = -2; t <= 2; ++t) G.centers[i].push_back(ctr + t * m);
     } else {
@@ -358,28 +361,32 @@ static std::string generic_class(const Shadow& SA, int n, const WP& wp, const Ve
 static std::string grid_class(const Shadow& SA, const Shadow& SR, int n, const WP& wp, const Vec& p, const Vec& q) {
   if (SR.d.empty()) return "result-empty";
   ref::Lattice LA = ref::from_congruences(n, SA.d[0].cgs), LR = ref::from_congruences(n, SR.d[0].cgs);
+  // culprits: wrapped variables whose required value is absent from the result's value set (attributable per variable);
+  // failing that (joint failure) the moved variables lying on an oblique line of the argument, else all moved ones
+  std::vector<int> cul;
+  for (size_t i = 0; i < wp.vlist.size(); ++i) { int v = wp.vlist[i]; Vec e(n); e[v] = 1; if (!ref::vs_contains(ref::values(LR, e, Q(0)), q[v])) cul.push_back(v); }
+  if (cul.empty()) {
+    for (size_t i = 0; i < wp.vlist.size(); ++i) { int v = wp.vlist[i]; Vec e(n); e[v] = 1; if (p[v] != q[v] && ref::values(LA, e, Q(0)).kind == ref::ValSet::ALL && !ref::line_member(LA, e)) return "var-on-oblique-line"; }
+    for (size_t i = 0; i < wp.vlist.size(); ++i) if (p[wp.vlist[i]] != q[wp.vlist[i]]) cul.push_back(wp.vlist[i]);
+    if (cul.empty()) cul = wp.vlist;
+  }
   std::set<std::string> kinds;
-  // culprits: wrapped variables whose required value is absent from the result's value set; failing that, the moved ones
-  std::vector<bool> culprit(n, false); bool any = false;
-  for (size_t i = 0; i < wp.vlist.size(); ++i) { int v = wp.vlist[i]; Vec e(n); e[v] = 1; if (!ref::vs_contains(ref::values(LR, e, Q(0)), q[v])) { culprit[v] = true; any = true; } }
-  if (!any) for (size_t i = 0; i < wp.vlist.size(); ++i) { int v = wp.vlist[i]; if (p[v] != q[v]) { culprit[v] = true; any = true; } }
-  if (!any) for (size_t i = 0; i < wp.vlist.size(); ++i) culprit[wp.vlist[i]] = true;
-  for (size_t i = 0; i < wp.vlist.size(); ++i) {
-    int v = wp.vlist[i]; Vec e(n); e[v] = 1;
-    if (!culprit[v]) continue;
+  for (size_t i = 0; i < cul.size(); ++i) {
+    int v = cul[i]; Vec e(n); e[v] = 1;
     ref::ValSet va = ref::values(LA, e, Q(0));
-    std::string k;
-    if (va.kind == ref::ValSet::CONST) k = "const-var";
+    std::string k; const char* sg = wp.sgn ? "-signed" : "-unsigned";
+    if (va.kind == ref::ValSet::CONST) k = std::string("const-var") + sg;
     else if (va.kind == ref::ValSet::ALL) k = ref::line_member(LA, e) ? "free-var" : "var-on-oblique-line";
     else {
       Q M(wp.M);
-      k = std::string("periodic-var-") + (!is_int(va.step) ? "fractional-step" : va.step * 2 < M ? "step-lt-half-range" : va.step < M ? "step-ge-half-range" : va.step == M ? "step-eq-range" : "step-gt-range");
-      if (!is_int(va.base)) k += "-fractional-base";
+      if (!is_int(va.step) || !is_int(va.base)) k = "periodic-var-fractional";
+      else if (va.step * 2 < M) k = "periodic-var-step-lt-half-range";
+      else if (va.step < M) k = "periodic-var-step-ge-half-range";
+      else k = std::string(va.step == M ? "periodic-var-step-eq-range" : "periodic-var-step-gt-range") + sg;
     }
     kinds.insert(k);
   }
-  std::string r = wp.sgn ? "signed" : "unsigned"; for (std::set<std::string>::iterator i = kinds.begin(); i != kinds.end(); ++i) r += "+" + *i;
-  return r;
+  return kinds.empty() ? std::string("unclassified") : *kinds.begin();   // one (the alphabetically first) kind keeps the key set small
 }
 
 // harness self-check: a reported witness must be confirmed by PPL's own containment test on a copy
@@ -514,7 +521,7 @@ static void case_wrap(const Entry& E, IDom& X) {
   if (!pts.empty()) {
     std::ostringstream d; d << "wrap|" << inst() << "|" << mode << "|w" << wp.w << (wp.sgn ? "s" : "u") << "|" << (wp.indiv ? "ind" : "col") << "|thr" << (wp.thr > 16 ? 99 : wp.thr)
       << "|" << (wp.use_guard ? "g" : "-") << "|prep" << prep << "|" << status << "|q" << (quadrants.size() > 4 ? 5 : quadrants.size()) << (A.bounded ? "|b" : "|u") << "|v" << wp.vlist.size() << "/" << n;
-    hx::distinct(d.str());
+    { if (hx::opt().verbose) fprintf(stderr, "token: %s\n", d.str().c_str()); hx::distinct(d.str()); }
   } else hx::count("wrap.no_argument_point");
 }
 
@@ -594,7 +601,7 @@ static void case_drop(const Entry& E, IDom& X) {
   hx::count("drop.pts_in_argument", npts); hx::count("drop.integer_pts_checked", kept);
   bool changed = false; { Vec w2; changed = exact_included(E, n, SA, SR, &w2) == 0; }
   if (changed) hx::count("drop.tightened");
-  if (npts) { std::ostringstream d; d << "drop|" << inst() << "|" << ccn << "|" << (all ? "all" : "vars") << vlist.size() << "/" << n << "|prep" << prep << "|" << status << (A.bounded ? "|b" : "|u") << (changed ? "|tight" : "|same") << (kept ? "|ip" : "|noip"); hx::distinct(d.str()); }
+  if (npts) { std::ostringstream d; d << "drop|" << inst() << "|" << ccn << "|" << (all ? "all" : "vars") << vlist.size() << "/" << n << "|prep" << prep << "|" << status << (A.bounded ? "|b" : "|u") << (changed ? "|tight" : "|same") << (kept ? "|ip" : "|noip"); { if (hx::opt().verbose) fprintf(stderr, "token: %s\n", d.str().c_str()); hx::distinct(d.str()); } }
 }
 
 static void case_cip(const Entry& E, IDom& X) {
